@@ -35,7 +35,7 @@ def db_loss_to_decimal(loss: float) -> float:
 
     """
     # Standardize loss format
-    loss = -abs(loss)
+    loss = -abs(float(loss))
     return 1 - 10 ** (loss / 10)
 
 
